@@ -372,6 +372,34 @@ Proof.
   destruct (map_stack3 ws r sc v st HL Hr HD Hf Ht Hok) as [s1 E1]. destruct (cli_stack3 ws r sc' v st HL Hr HD Hf Ht Hok') as [s2 E2].
   rewrite E1, E2. repeat split.
 Qed.
+
+(* ---- a call whose argument (parentheses stripped) is the set — `mk { … }`, `pkgs.mkDerivation ({ … })`: for a callee the CLI accepts both walks
+        return the argument; for a callee the CLI refuses (`1 { … }`) the CLI raises ValueError while the mapping still returns it (the one place where
+        the two copies differ on purpose) ---- *)
+Theorem cli_call_set f t a sc v st :
+  w_cls w t = CCall -> w_argument w t = Some a -> w_cls w (w_strip w a) = CSet -> existsb (w_eqb w t) v = false -> scopes_okw t sc st ->
+  target w (S f) t sc (v, st) = if w_supports w t then (RVal (w_strip w a), (t :: v, st)) else (RErrV, (t :: v, st)).
+Proof.
+  intros Hc Ha Hs Hv Hk. unfold target.
+  cbn [resolve_target_set_from_expr]; unfold TargetGen.bind at 1, is_visited at 1; cbn [fst snd]; rewrite Hv;
+  unfold TargetGen.bind at 1, visit at 1; cbn [fst snd]; cbv zeta; unfold TargetGen.bind at 1; unfold scopes_ok in Hk;
+  destruct sc; [|destruct Hk as [c_ Hk]]; unfold TargetGen.bind, get_scopes, TargetGen.ret; cbn [fst snd]; [|rewrite Hk];
+  rewrite Hc, Ha; unfold is_cls; rewrite Hs; destruct (w_supports w t); reflexivity.
+Qed.
+Theorem map_call_set f t a sc v st :
+  w_cls w t = CCall -> w_argument w t = Some a -> w_cls w (w_strip w a) = CSet -> existsb (w_eqb w t) v = false -> scopes_okw t sc st ->
+  map_target w (S f) t sc (v, st) = (RVal (w_strip w a), (t :: v, st)).
+Proof.
+  intros Hc Ha Hs Hv Hk. enter_map sc Hv Hk; rewrite Hc; unfold TargetGen.bind, call_argument; rewrite Ha; cbn [option_map]; unfold is_cls; rewrite Hs; cbn [cls_eqb andb]; unfold TargetGen.bind, TargetGen.ret; cbn [fst snd]; rewrite Hs; reflexivity.
+Qed.
+Theorem targets_agree_on_supported_call f t a sc v st :
+  w_cls w t = CCall -> w_argument w t = Some a -> w_cls w (w_strip w a) = CSet -> existsb (w_eqb w t) v = false -> scopes_okw t sc st -> w_supports w t = true ->
+  map_target w (S f) t sc (v, st) = target w (S f) t sc (v, st).
+Proof. intros Hc Ha Hs Hv Hk Hsup. rewrite (cli_call_set f t a sc v st Hc Ha Hs Hv Hk), Hsup. apply map_call_set; assumption. Qed.
+Theorem targets_differ_on_refused_callee f t a sc v st :
+  w_cls w t = CCall -> w_argument w t = Some a -> w_cls w (w_strip w a) = CSet -> existsb (w_eqb w t) v = false -> scopes_okw t sc st -> w_supports w t = false ->
+  fst (target w (S f) t sc (v, st)) = RErrV /\ fst (map_target w (S f) t sc (v, st)) = RVal (w_strip w a).
+Proof. intros Hc Ha Hs Hv Hk Hsup. rewrite (cli_call_set f t a sc v st Hc Ha Hs Hv Hk), Hsup, (map_call_set f t a sc v st Hc Ha Hs Hv Hk). split; reflexivity. Qed.
 End W.
 
 Definition map_table_run (tb : table) (exprs : list nat) : res nat * nat :=
@@ -394,3 +422,4 @@ Example names_demo :
                t_supports := []; t_name := []; t_select := []; t_truthy := [false; true]; t_scopes := [(0, 0, RVal 1); (1, 0, RVal 1)]; t_values := [(1, 1, RVal 2)] |} in
   map_table_run tb [0] = (RVal 2, 1) /\ table_run tb [0] = (RVal 2, 1).
 Proof. vm_compute. split; reflexivity. Qed.
+Print Assumptions targets_differ_on_refused_callee.
